@@ -458,6 +458,8 @@ def expected(pre, op, pool):
 
     if k == "set_id":
         kind, old, new = op[1], op[2], op[3]
+        if " " in new:
+            return {"raise": True}   # refused by the solver interface; nothing may change
         if kind == "rxn":
             if new in R:
                 return {"raise": True}
